@@ -718,9 +718,25 @@ class RdmsOps:
         self.ctx.behaviour('sort_by_list', t.op, by)
 
     def op_append(self, o):
-        t = self.pick(o, sem_only=True)
+        t = self.pick(o, sem_only=self.pool.prop != 'C12')
         if t is None:
             return False
+        if t.sem is None:
+            # an object without a semantic twin (a producer's result): the append itself is not judged, what it does to
+            # *other* objects is (C12)
+            cands = [s for s in self.rdms() if s.sid != t.sid and s.obj.n_cond == t.obj.n_cond
+                     and s.obj.dissimilarity_measure == t.obj.dissimilarity_measure
+                     and set(t.obj.rdm_descriptors.keys()) <= set(s.obj.rdm_descriptors.keys())]
+            if not cands:
+                return False
+            other = cands[o['u'] % len(cands)]
+            try:
+                t.obj.append(other.obj)
+            except Exception:
+                self.ctx.probe('append_on_result_raised')
+            self.pool.sweep('append', target=t.sid, args=[other.sid], inplace=True)
+            self.ctx.behaviour('append', t.op, other.op, 'no-twin')
+            return
         cands = [s for s in self.rdms(True) if s.sid != t.sid and s.sem['cu'] == t.sem['cu']
                  and s.obj.dissimilarity_measure == t.obj.dissimilarity_measure
                  and set(t.obj.rdm_descriptors.keys()) <= set(s.obj.rdm_descriptors.keys())
@@ -848,9 +864,16 @@ def _add_producers():
                 args.append(cands[o['u'] % len(cands)])
             try:
                 res = call(self, o, *[a.obj for a in args])
+            except UnboundLocalError:
+                # raised inside the library (rescale's iteration never starts when an estimate is NaN): a failed call
+                self.ctx.probe(f'producer_raised:{name}')
+                self.pool.sweep(name, args=[a.sid for a in args])
+                return
             except (ImportError, NameError) as e:
                 raise HarnessError(f'producer {name}: {e!r}')
             except Exception as e:
+                if isinstance(e, AttributeError) and str(e).startswith("module '"):
+                    raise HarnessError(f'producer {name}: {e!r}')      # the harness names a function that does not exist
                 self.ctx.probe(f'producer_raised:{name}')
                 self.pool.sweep(name, args=[a.sid for a in args])
                 return
@@ -861,6 +884,7 @@ def _add_producers():
                 if kind is not None:
                     produced.append(self.pool.add(r, kind, None, name, [a.sid for a in args]).sid)
             self.pool.sweep(name, args=[a.sid for a in args], produced=produced)
+            self.ctx.probe(f'producer_ok:{name}')
             self.ctx.behaviour(name, src.op)
         op.__name__ = 'op_' + name
         setattr(RdmsOps, 'op_' + name, op)
@@ -885,7 +909,8 @@ def _add_producers():
     _producer('geotopological_transform', lambda self, o, a: T.geotopological_transform(a, 0.1 + (o['a'][0] % 3) / 10, 0.6 + (o['a'][1] % 4) / 10))
     _producer('geodesic_transform', lambda self, o, a: T.geodesic_transform(a))
     _producer('transform_fun', lambda self, o, a: T.transform(a, lambda x: x * 2 + 1))
-    _producer('rescale', lambda self, o, a: R.rescale(a, method=['evidence', 'setsize', 'simple'][o['a'][0] % 3]))
+    from rsatoolbox.rdm.combine import rescale as _rescale_fn
+    _producer('rescale', lambda self, o, a: _rescale_fn(a, method=['evidence', 'setsize', 'simple'][o['a'][0] % 3]))
     def _mean(self, o, a):
         k = o['a'][0] % 4
         if k == 0:
